@@ -212,7 +212,27 @@ pub fn zn(id: u16, name: &str) {
     log::log(K::Call, id, &enc64(fnv(name.as_bytes())));
 }
 /// Drives a future of a plain value on its own current-thread runtime (async macro nested in a sync one).
-pub fn run_async_val<T, F: std::future::Future<Output = T>>(f: F) -> T {
+/// The runtime lives on a helper thread that carries the caller's thread name, so that this also works
+/// when the sync macro itself is being evaluated inside a task of an outer runtime.
+pub fn run_async_val<T: Send, F: std::future::Future<Output = T> + Send>(f: F) -> T {
+    let name = std::thread::current().name().map(|s| s.to_owned());
+    std::thread::scope(|s| {
+        let b = std::thread::Builder::new();
+        let b = match name {
+            Some(n) => b.name(n),
+            None => b,
+        };
+        b.spawn_scoped(s, move || {
+            let rt = tokio::runtime::Builder::new_current_thread().enable_time().build().expect("rt");
+            rt.block_on(f)
+        })
+        .expect("helper thread")
+        .join()
+        .expect("nested runtime panicked")
+    })
+}
+/// Same, on the calling thread (for futures that are not `Send`); must not be called from inside a runtime.
+pub fn run_async_local<T, F: std::future::Future<Output = T>>(f: F) -> T {
     let rt = tokio::runtime::Builder::new_current_thread().enable_time().build().expect("rt");
     rt.block_on(f)
 }
@@ -410,7 +430,7 @@ pub fn main(twins: &'static [Twin]) {
                 nontrivial.insert(fnv(format!("{}|{}", t.id, pstr).as_bytes()));
             }
             for tag in t.tags.split(',') {
-                if tag.starts_with("op:") || tag.starts_with("w:") || tag.starts_with("sp:") || tag.starts_with("big:") || tag.starts_with("wide:") || tag.starts_with("bounds:") || tag.starts_with("nest:") || tag.starts_with("pair:") {
+                if tag.starts_with("op:") || tag.starts_with("w:") || tag.starts_with("sp:") || tag.starts_with("big:") || tag.starts_with("wide:") || tag.starts_with("bounds:") || tag.starts_with("nest:") || tag.starts_with("pair:") || tag.starts_with("triple:") {
                     *cover.entry(tag.to_string()).or_insert(0) += 1;
                 }
             }
